@@ -10,6 +10,8 @@ mod settings;
 mod tests;
 mod transaction;
 mod types;
+#[cfg(feature = "verif")]
+pub mod verif;
 mod wal;
 
 pub use cas::{Cas, CasInner, LibError, LibIoOperation, calculate_blob_hash};
